@@ -65,8 +65,22 @@ def draw_settings(rng, probe_nyquist):
          "op": op, "bw": bw, "fcs": fcs, "fcs_as": rng.choice(["list", "array", "tuple"]),
          "wtw_as": rng.choice(["list", "list", "tuple"]),
          "fft_n": rng.choice([None, None, None, 4096, 65536, "none_key"])}
-    if rng.random() < 0.15:
+    u = rng.random()
+    if u < 0.15:
         rng.shuffle(s["fcs"])                       # centre frequencies need not be sorted
+    elif u < 0.22 and not probe_nyquist:
+        # a piecewise request whose segments overlap at the seam (a small step back), a coarse grid followed by its
+        # refinement, or a descending grid
+        kind = rng.choice(["seam", "seam", "refine", "descending"])
+        if kind == "seam":
+            mid = lo * (hi / lo) ** rng.choice([0.4, 0.5, 0.6])
+            k = rng.randint(3, 9)
+            s["fcs"] = [float(x) for x in np.linspace(lo, mid, k)] + \
+                       [float(x) for x in np.geomspace(mid * rng.choice([0.8, 0.9, 0.97]), hi, rng.randint(3, 9))]
+        elif kind == "refine":
+            s["fcs"] = [float(x) for x in np.geomspace(lo, hi, 4)] + [float(x) for x in np.geomspace(lo * 1.1, hi * 0.9, nf)]
+        else:
+            s["fcs"] = s["fcs"][::-1]
     if cls == "traditional":
         s["method"] = rng.choice(METHODS)
     if cls == "single_azimuth":
@@ -85,6 +99,8 @@ def draw_record(rng, big):
     if not big and rng.random() < 0.08:
         n = rng.randint(16, 80)                    # very short recordings are legal too
     return {"k": rng.randrange(1 << 30), "n": n, "rate": rate,
+            # a dead channel (disconnected sensor: all samples exactly zero) is a legal recording
+            "dead": rng.choice(["vt", "vt", "ns", "ew", "h"]) if rng.random() < 0.05 else None,
             # raw digitiser counts next to records in physical units: amplitude scales far apart are legal
             "scale": rng.choice([1.0] * 6 + [1e9, 1e-9, 1e6, 1e-12]),
             "deg": rng.choice([0.0, 0.0, 15.0, 270.0]),
@@ -248,6 +264,8 @@ def make_record(H, spec):
     comps = []
     for c in range(3):
         x = g.normal(0, 1, n) + (2.0 if c < 2 else 0.5) * np.sin(2 * np.pi * (1.5 + 0.3 * c) * t)
+        if spec.get("dead") and (spec["dead"] == ("ns", "ew", "vt")[c] or (spec["dead"] == "h" and c < 2)):
+            x = np.zeros(n)
         comps.append(H.TimeSeries(x * float(spec.get("scale", 1.0)), dt))
     meta = {k: v for k, v in copy.deepcopy(spec["meta"]).items() if v is not None}
     return H.SeismicRecording3C(*comps, degrees_from_north=spec["deg"], meta=meta)
@@ -367,7 +385,8 @@ def oracle_c03(ctx, st, op, records, settings, spec, res, exc):
         return
     if any(nyq_violated):
         return                                   # majority tie with different verdicts: either is fine
-    if isinstance(exc, ValueError) and ("may not contain nan" in str(exc) or "must be >= 0" in str(exc)):
+    if isinstance(exc, ValueError) and ("may not contain nan" in str(exc) or "must be >= 0" in str(exc)
+                                        or "may not contain inf" in str(exc)):
         # the result validation refused non-finite / negative amplitudes (e.g. the
         # Savitzky-Golay kernel has negative lobes): that is the property's
         # 'finite non-negative' clause at work, not a bookkeeping failure
@@ -375,6 +394,7 @@ def oracle_c03(ctx, st, op, records, settings, spec, res, exc):
         # ... unless every recording, processed alone at the batch's FFT length, is accepted: then the rows of the
         # batch (which must equal those solo rows) are finite and non-negative too and the refusal is the batch's doing
         if cls != "diffuse_field" and spec.get("fft_n") != "none_key":
+            verdicts = []
             for kept in admissible:
                 nbs = set()
                 for nmax in (max(records[i].vt.n_samples for i in kept), max(r_.vt.n_samples for r_ in records)):
@@ -385,10 +405,15 @@ def oracle_c03(ctx, st, op, records, settings, spec, res, exc):
                             nb *= 2
                     nbs.add(int(nb))
                 nb = sorted(nbs)
-                if all(isinstance(solo_rows(st, records[i], spec, nb_), list) for nb_ in nb for i in kept[:24]):
-                    ctx.check(False, "batch_refused_but_each_alone_accepted",
-                              lambda: f"process() refused the batch ({exc}) although every kept recording processed alone at FFT "
-                                      f"length {nb} gives finite, non-negative curves (dts {dts}, policy {spec['policy']})", key=key)
+                # (many recordings: the first two dozen, and every one with a dead channel - those are refused alone)
+                sample = list(kept[:24]) + [i for i in kept[24:] if any(not np.any(getattr(records[i], c_).amplitude)
+                                                                         for c_ in ("ns", "ew", "vt"))]
+                verdicts.append(all(isinstance(solo_rows(st, records[i], spec, nb_), list) for nb_ in nb for i in sample))
+            # (a tie between most frequent time steps leaves the choice of the kept set open: the refusal is the batch's
+            #  doing only if no admissible choice contains a recording that is refused alone)
+            ctx.check(not all(verdicts), "batch_refused_but_each_alone_accepted",
+                      lambda: f"process() refused the batch ({exc}) although every kept recording processed alone at the batch's "
+                              f"FFT length gives finite, non-negative curves (dts {dts}, policy {spec['policy']})", key=key)
         return
     ctx.check(exc is None, "process_raised",
               lambda: f"process() raised {type(exc).__name__}: {exc} for a valid batch (dts {dts}, policy {spec['policy']})", key=key)
@@ -412,10 +437,11 @@ def oracle_c03(ctx, st, op, records, settings, spec, res, exc):
                 if rn is None:
                     ok_any = True                  # no reference at this FFT length exists for the subset: not judged
                     continue
-                ref = _process(H, sub, make_settings(H, spec, fft_n=rn))
+                aspec, inv = ascending(spec)
+                ref = _process(H, sub, make_settings(H, aspec, fft_n=rn))
             except Exception:                    # noqa
                 continue                       # this candidate subset is refused (result validation, …): not a match
-            if close(ref.amplitude, amp, 1e-10):
+            if close(np.asarray(ref.amplitude)[inv], amp, 1e-10):
                 ok_any = True
         ctx.check(ok_any, "kept_subset_differs",
                   "diffuse-field result differs from processing the kept recordings alone", key=key)
@@ -480,6 +506,18 @@ def ref_fft(spec, n, subset_max):
     return None
 
 
+def ascending(spec):
+    """The same request with its centre frequencies in ascending order, and the column permutation that takes a result
+    of that request back to the order asked for: the value AT a centre frequency cannot depend on where in the
+    request that frequency stands ("sampled at exactly the requested centre frequencies")."""
+    order = np.argsort(np.asarray(spec["fcs"], float), kind="stable")
+    inv = np.empty(len(order), dtype=int)
+    inv[order] = np.arange(len(order))
+    aspec = dict(spec)
+    aspec["fcs"] = [spec["fcs"][int(j)] for j in order]
+    return aspec, inv
+
+
 def solo_rows(st, record, spec, n):
     H = hv()
     n = ref_fft(spec, n, record.vt.n_samples)
@@ -504,8 +542,9 @@ def solo_rows(st, record, spec, n):
                     raise RuntimeError("solo refused")
                 st.solo_cache[key] = out
             else:
-                res = _process(H, [fresh], make_settings(H, spec, fft_n=n))
-                st.solo_cache[key] = rows_of(H, res)
+                st.solo_cache[key] = _solo_in_child(fresh, spec, n)
+                if st.solo_cache[key] is None:
+                    raise RuntimeError("solo refused")
         except Exception:                      # noqa
             st.solo_cache[key] = None          # the solo result is refused (result validation, …)
     return st.solo_cache[key]
@@ -779,7 +818,8 @@ def _sig(ctx, st, op, last):
 def _solo_in_child(fresh, spec, n):
     H = hv()
     try:
-        return rows_of(H, _process(H, [fresh], make_settings(H, spec, fft_n=n)))
+        aspec, inv = ascending(spec)                        # the reference request is ascending; columns are put back
+        return [(label, np.asarray(a)[:, inv]) for label, a in rows_of(H, _process(H, [fresh], make_settings(H, aspec, fft_n=n)))]
     except Exception:                                       # noqa
         return None
 
